@@ -6,12 +6,17 @@ package c15
 // (found by reading /docx, /odt, /pptx, /htmldoc; none of them is worked around here):
 //
 //   - DOCX: a heading is recognised from the style id HeadingN / style name "heading N" /
-//     the style's outlineLvl (all three are written). Ordered vs bullet comes from numbering.xml
+//     the style's outlineLvl (all three are written for the built-in styles, N = 1..9), from an
+//     outlineLvl of the paragraph itself, and through w:basedOn chains; Block.Via picks one of the
+//     four spellings. Ordered vs bullet comes from numbering.xml
 //     (numId -> abstractNum -> lvl/numFmt). Every list block gets its own pair of w:num instances
 //     (bullet numId 2k+1, decimal numId 2k+2 for the k-th list block) so separate lists are separate
 //     lists per the spec; an item picks the numId by its own Ordered flag and ilvl=Depth. tabula
 //     prints a blank line whenever the numId changes between consecutive items.
-//   - ODT: tabula only honours the style-name of the OUTERMOST text:list (nested style-names are
+//   - ODT: a text:h carries its level in text:outline-level (1..10); tabula prefers the
+//     default-outline-level of the paragraph style when it has one (the writer never makes the two
+//     disagree). Block.Via 0 uses the predefined style "Heading N", 1 a style without outline level.
+//     tabula only honours the style-name of the OUTERMOST text:list (nested style-names are
 //     ignored, ODTNestedKindFollowsRoot); the kind of a nested item is root-style x level. A
 //     text:list-style has one kind per level, so WriteODT gives the root list a style whose levels
 //     match the items ("LB" all bullet, "LN" all number, else an automatic style "LM<b|n per depth>");
@@ -53,11 +58,41 @@ type Item struct {
 }
 type Block struct {
 	Kind  string // "heading", "para", "list", "table"
-	Level int    // heading level 1..6
+	Level int    // heading level as authored: 1..MaxSourceLevel(format) (PPTX: ignored, slide titles have no level)
+	Via   int    // how the heading level is expressed in the file, 0..HeadingVias(format)-1 (see WriteDOCX, WriteODT)
 	Text  string // heading / paragraph text (single line)
 	Items []Item
 	Rows  [][]Cell
 }
+
+// MaxSourceLevel is the deepest heading level the format can express: WordprocessingML has the
+// built-in styles "heading 1".."heading 9" and w:outlineLvl 0..8 (ECMA-376 17.3.1.20: 9 = body text);
+// ODF 1.2 text:outline-level is a positiveInteger and outline styles have levels 1..10 (the
+// predefined paragraph styles are "Heading 1".."Heading 10"); HTML has h1..h6; a slide title has no
+// level (tabula writes it at level 1).
+func MaxSourceLevel(format string) int {
+	switch format {
+	case "docx":
+		return 9
+	case "odt":
+		return 10
+	case "html":
+		return 6
+	}
+	return 1
+}
+
+// HeadingVias is the number of ways the writer of the format can express a heading of a given level.
+func HeadingVias(format string) int {
+	switch format {
+	case "docx":
+		return 4
+	case "odt":
+		return 2
+	}
+	return 1
+}
+
 type Doc struct {
 	Title, Author string
 	Blocks        []Block
@@ -166,7 +201,17 @@ func WriteDOCX(d Doc) []byte {
 	for _, bl := range d.Blocks {
 		switch bl.Kind {
 		case "heading":
-			b.WriteString(wPara(fmt.Sprintf(`<w:pStyle w:val="Heading%d"/>`, bl.Level), bl.Text))
+			// four spellings of "this paragraph is a heading of level N" (ECMA-376 17.3.1.20, 17.7.4.17):
+			switch bl.Via {
+			default: // the built-in style "heading N" (styleId HeadingN, w:outlineLvl N-1 in the style)
+				b.WriteString(wPara(fmt.Sprintf(`<w:pStyle w:val="Heading%d"/>`, bl.Level), bl.Text))
+			case 1: // direct formatting: w:outlineLvl N-1 on a Normal paragraph
+				b.WriteString(wPara(fmt.Sprintf(`<w:outlineLvl w:val="%d"/>`, bl.Level-1), bl.Text))
+			case 2: // a custom style with its own w:outlineLvl N-1 (no heading-like id or name)
+				b.WriteString(wPara(fmt.Sprintf(`<w:pStyle w:val="Kapitel%d"/>`, bl.Level), bl.Text))
+			case 3: // a custom style based on the built-in one (outline level inherited through w:basedOn)
+				b.WriteString(wPara(fmt.Sprintf(`<w:pStyle w:val="Abschnitt%d"/>`, bl.Level), bl.Text))
+			}
 		case "para":
 			b.WriteString(wPara("", bl.Text))
 		case "list":
@@ -210,8 +255,10 @@ func WriteDOCX(d Doc) []byte {
 	var st strings.Builder
 	st.WriteString(xmlHdr + `<w:styles ` + wNS + `><w:docDefaults><w:rPrDefault><w:rPr><w:sz w:val="22"/></w:rPr></w:rPrDefault></w:docDefaults>` +
 		`<w:style w:type="paragraph" w:default="1" w:styleId="Normal"><w:name w:val="Normal"/></w:style>`)
-	for i := 1; i <= 6; i++ {
+	for i := 1; i <= 9; i++ {
 		fmt.Fprintf(&st, `<w:style w:type="paragraph" w:styleId="Heading%d"><w:name w:val="heading %d"/><w:basedOn w:val="Normal"/><w:next w:val="Normal"/><w:pPr><w:keepNext/><w:outlineLvl w:val="%d"/></w:pPr></w:style>`, i, i, i-1)
+		fmt.Fprintf(&st, `<w:style w:type="paragraph" w:customStyle="1" w:styleId="Kapitel%d"><w:name w:val="Kapitel Ebene %s"/><w:basedOn w:val="Normal"/><w:next w:val="Normal"/><w:pPr><w:keepNext/><w:outlineLvl w:val="%d"/></w:pPr></w:style>`, i, string(rune('A'+i-1)), i-1)
+		fmt.Fprintf(&st, `<w:style w:type="paragraph" w:customStyle="1" w:styleId="Abschnitt%d"><w:name w:val="Abschnitt %s"/><w:basedOn w:val="Heading%d"/><w:next w:val="Normal"/><w:pPr><w:keepLines/></w:pPr></w:style>`, i, string(rune('A'+i-1)), i)
 	}
 	st.WriteString(`<w:style w:type="paragraph" w:styleId="ListParagraph"><w:name w:val="List Paragraph"/><w:basedOn w:val="Normal"/><w:pPr><w:ind w:left="720"/></w:pPr></w:style></w:styles>`)
 
@@ -370,7 +417,12 @@ func WriteODT(d Doc) []byte {
 	for _, bl := range d.Blocks {
 		switch bl.Kind {
 		case "heading":
-			fmt.Fprintf(&b, `<text:h text:style-name="Heading_20_%d" text:outline-level="%d">%s</text:h>`, bl.Level, bl.Level, odtText(bl.Text))
+			// ODF 1.2 part 1, 5.1.2 / 19.844: the level of a text:h is its text:outline-level
+			if bl.Via == 1 { // a paragraph style that says nothing about outline levels
+				fmt.Fprintf(&b, `<text:h text:style-name="Chapter_20_Title" text:outline-level="%d">%s</text:h>`, bl.Level, odtText(bl.Text))
+			} else { // the predefined style "Heading N" (default-outline-level N)
+				fmt.Fprintf(&b, `<text:h text:style-name="Heading_20_%d" text:outline-level="%d">%s</text:h>`, bl.Level, bl.Level, odtText(bl.Text))
+			}
 		case "para":
 			b.WriteString(`<text:p text:style-name="Standard">` + odtText(bl.Text) + `</text:p>`)
 		case "list":
@@ -438,9 +490,10 @@ func WriteODT(d Doc) []byte {
 		b.String() + `</office:text></office:body></office:document-content>`
 
 	st := xmlHdr + `<office:document-styles ` + odfNS + `><office:styles><style:style style:name="Standard" style:family="paragraph" style:class="text"/>`
-	for i := 1; i <= 6; i++ {
+	for i := 1; i <= 10; i++ {
 		st += fmt.Sprintf(`<style:style style:name="Heading_20_%d" style:display-name="Heading %d" style:family="paragraph" style:parent-style-name="Standard" style:default-outline-level="%d" style:class="text"/>`, i, i, i)
 	}
+	st += `<style:style style:name="Chapter_20_Title" style:display-name="Chapter Title" style:family="paragraph" style:parent-style-name="Standard" style:class="text"/>`
 	st += odtListStyle("LB", []byte("b")) + odtListStyle("LN", []byte("n")) + `</office:styles></office:document-styles>`
 
 	meta := xmlHdr + `<office:document-meta ` + odfNS + `><office:meta><dc:title>` + esc(d.Title) + `</dc:title><meta:initial-creator>` + esc(d.Author) +
